@@ -82,6 +82,7 @@ func init() {
 	Properties["C01"] = &PropertySpec{
 		Modules: bt,
 		Rules: []Rule{
+			R52(),
 			R45(),
 			R06(),
 			R08(Only8("applyMutations")),
@@ -97,6 +98,7 @@ func init() {
 	Properties["C02"] = &PropertySpec{
 		Modules: st,
 		Rules: []Rule{
+			R51(),
 			Only(R22(), `filestore\.Add/content`),
 			Only(R11(), fns("(*GcsEmu).finishUpload")),
 			R08(Only8("finishUpload")),
@@ -138,6 +140,7 @@ func init() {
 	Properties["C05"] = &PropertySpec{
 		Modules: bt,
 		Rules: []Rule{
+			R50(),
 			R18(),
 			Only(R13(2, core.PkgBttest), fns("filterRow", "filterCells", "includeCell", "modifyCell")),
 			Only(R09(), `^I1/`),
@@ -153,6 +156,7 @@ func init() {
 	Properties["C06"] = &PropertySpec{
 		Modules: bt,
 		Rules: []Rule{
+			R50(),
 			Only(R01(map[string]int{"table.rows": 7}), `/table\.rows/`, fns(writeRPCs...)),
 			Only(R04(), fns(writeRPCs...)),
 			Only(R02R03(), fns(writeRPCs...), fns("(*table).gc")),
@@ -199,6 +203,7 @@ func init() {
 	Properties["C09"] = &PropertySpec{
 		Modules: st,
 		Rules: []Rule{
+			R49(),
 			Only(R48(), `filestore`),
 			R22(),
 			R27(),
@@ -222,6 +227,7 @@ func init() {
 	Properties["C11"] = &PropertySpec{
 		Modules: st,
 		Rules: []Rule{
+			R49(),
 			Only(R48(), `filestore`),
 			Only(R17(), `handleGcsListBucket`, `makeBucketListResults`),
 			R27(),
@@ -236,6 +242,7 @@ func init() {
 	Properties["C12"] = &PropertySpec{
 		Modules: bt,
 		Rules: []Rule{
+			R50(),
 			R19(Only19("cam")),
 			Only(R06(), fns(rpcCAM)),
 			Only(R07(), fns(rpcCAM)),
@@ -249,6 +256,7 @@ func init() {
 	Properties["C13"] = &PropertySpec{
 		Modules: bt,
 		Rules: []Rule{
+			R52(),
 			R45(),
 			R08(Only8("ReadModifyWriteRow")),
 			Only(R07(), fns(rpcRMW)),
@@ -357,6 +365,7 @@ func init() {
 	Properties["C20"] = &PropertySpec{
 		Modules: []string{"bigtable", "storage"},
 		Rules: []Rule{
+			R51(),
 			R46(),
 			R44(),
 			R13(3, core.PkgBttest, core.PkgGcsemu, core.PkgGcsutil),
